@@ -44,12 +44,14 @@ func (m *RecoverableService) Start() {
 	defer m.mu.Unlock()
 
 	if m.running {
+		verifPoint("v2.start.running", m)
 		return
 	}
 
 	go m.serviceStart()
 	m.run()
 	m.running = true
+	verifPoint("v2.started", m)
 }
 
 func (m *RecoverableService) Stop() {
@@ -57,24 +59,30 @@ func (m *RecoverableService) Stop() {
 	defer m.mu.Unlock()
 
 	if !m.running {
+		verifPoint("v2.stop.notrunning", m)
 		return
 	}
 
 	m.service.Stop()
 	close(m.stopCh)
 	m.running = false
+	verifPoint("v2.stopped", m)
 }
 
 func (m *RecoverableService) serviceStart() {
 	for {
 		select {
 		case err := <-m.stopped:
+			verifPoint("v2.w.recv", m, err)
 			// restart the service
 			if err != nil && errors.Is(err, errServiceStopped) {
 				<-time.After(coolDown)
+				verifPoint("v2.w.cooled", m)
 				m.run()
+				verifPoint("v2.w.rerun", m)
 			}
 		case <-m.stopCh:
+			verifPoint("v2.w.stopseen", m)
 			return
 		}
 	}
@@ -84,21 +92,26 @@ func (m *RecoverableService) run() {
 	go func(s Doable, l *log.Logger, chStop chan error) {
 		defer func() {
 			if err := recover(); err != nil {
+				verifPoint("v2.g.recovered", m)
 				if l != nil {
 					l.Println(err)
 					l.Println(string(debug.Stack()))
 				}
 
 				chStop <- errServiceStopped
+				verifPoint("v2.g.sent", m, errServiceStopped)
 			}
 		}()
 
+		verifPoint("v2.g.enter", m)
 		err := s.Do()
+		verifPoint("v2.g.returned", m, err)
 
 		if l != nil && err != nil {
 			l.Println(err)
 		}
 
 		chStop <- err
+		verifPoint("v2.g.sent", m, err)
 	}(m.service, m.log, m.stopped)
 }
